@@ -145,11 +145,92 @@ func listenerFEC(seqid uint32, typ uint16, body []byte, withSize bool) []byte {
 	return b
 }
 
-func listenerOOB(conv uint32, payload []byte) []byte {
+// OOB: | seqid | 0xf3 | size | conv | payload |.  Real senders put 0xffffffff and len+2 into
+// seqid and size; neither the listener nor the session reads them, so the generator draws them.
+func listenerOOBx(seqid uint32, size uint16, conv uint32, payload []byte) []byte {
 	body := make([]byte, 4+len(payload))
 	binary.LittleEndian.PutUint32(body, conv)
 	copy(body[4:], payload)
-	return listenerFEC(0xffffffff, 0xf3, body, true)
+	b := listenerFEC(seqid, 0xf3, body, true)
+	binary.LittleEndian.PutUint16(b[6:], size)
+	return b
+}
+
+// Every header field that the listener must NOT look at is drawn from the whole range, with
+// the values around the 16-bit and 32-bit boundaries preferred, so that reading any field at
+// a wrong offset changes what the listener does.
+func listenerU32(r *vrng) uint32 {
+	switch r.intn(12) {
+	case 0:
+		return 0
+	case 1:
+		return 1
+	case 2:
+		return 0xffff
+	case 3:
+		return 0x10000
+	case 4:
+		return 0x10001
+	case 5:
+		return 1 << 31
+	case 6:
+		return 0xffffffff
+	case 7:
+		return uint32(r.intn(0x10000)) // below 2^16
+	case 8:
+		return uint32(1+r.intn(0xffff)) << 16 // a multiple of 2^16
+	default:
+		return uint32(r.u64())
+	}
+}
+
+// a sequence number that is not 0 (not the first packet of a conversation)
+func listenerSnNonzero(r *vrng) uint32 {
+	for {
+		var v uint32
+		switch r.intn(6) {
+		case 0:
+			v = 1
+		case 1:
+			v = 0x10000
+		case 2:
+			v = uint32(1+r.intn(0xffff)) << 16
+		case 3:
+			v = uint32(1 + r.intn(40))
+		default:
+			v = listenerU32(r)
+		}
+		if v != 0 {
+			return v
+		}
+	}
+}
+
+// a segment whose wnd, ts, una (and frg for control segments: frg of a PUSH decides message
+// boundaries in the session, and is part of the 16-bit field the listener does read) are free
+func (c *listenerCase) seg(conv uint32, cmd byte, sn uint32, data []byte) []byte {
+	frg := byte(0)
+	if cmd != 81 {
+		frg = byte(c.rng.intn(256))
+	}
+	return listenerSeg(conv, cmd, frg, uint16(listenerU32(c.rng)), listenerU32(c.rng), sn, listenerU32(c.rng), data)
+}
+
+// hand-made FEC data framing: seqid and size are free (the listener reads neither)
+func (c *listenerCase) fecHand(from int, conv, sn uint32, seg []byte) listenerDg {
+	b := listenerFEC(listenerU32(c.rng), 0xf1, seg, true)
+	binary.LittleEndian.PutUint16(b[6:], uint16(listenerU32(c.rng)))
+	return c.good(from, "fecdata-hand", b, true, conv, sn, []uint32{sn})
+}
+
+// a PUSH of (conv, sn) from address index `from` carrying that address's content, raw or in
+// hand-made FEC data framing
+func (c *listenerCase) pushFrom(from int, conv, sn uint32) listenerDg {
+	seg := c.seg(conv, 81, sn, listenerContent(c.key(from), conv, sn))
+	if c.rng.chance(50) {
+		return c.fecHand(from, conv, sn, seg)
+	}
+	return c.good(from, "raw", seg, true, conv, sn, []uint32{sn})
 }
 
 // what the peer at address key, conversation conv, writes as its sn-th message
@@ -160,6 +241,9 @@ func listenerContent(key string, conv, sn uint32) []byte {
 	}
 	r := &vrng{s: h}
 	n := 1 + r.intn(40)
+	if r.intn(8) == 0 {
+		n = 1 + r.intn(1000)
+	}
 	return r.bytes(n)
 }
 
@@ -713,7 +797,9 @@ func (c *listenerCase) pkt(d listenerDg) {
 	// boundary B3: a parity (or unreadable FEC) packet that does not belong to the live
 	// conversation is handed to that session's FEC decoder; what reconstruction then makes of
 	// it is property C16's subject - the content oracle does not speak about such a session
-	if live := q.tab[key]; live != nil && d.ok && !d.readable && (d.class == "parity" || d.class == "fecshort") && d.pconv != live.kcp.conv {
+	if live := q.tab[key]; live != nil && d.ok &&
+		((!d.readable && (d.class == "parity" || d.class == "fecshort") && d.pconv != live.kcp.conv) ||
+			(d.class == "fecdata-hand" && d.conv == live.kcp.conv)) {
 		if in := c.info[live]; !in.tainted {
 			in.tainted = true
 			c.rep.Distribution["event:B3-foreign-parity-fed-to-session"]++
@@ -1127,11 +1213,11 @@ func (c *listenerCase) newPeer(idx int) *listenerPeer {
 // way this peer packages (raw or FEC data + the parity the encoder emits)
 func (c *listenerCase) push(p *listenerPeer, conv, sn uint32, extraForeign bool) []listenerDg {
 	key := c.key(p.idx)
-	seg := listenerSeg(conv, 81, 0, 32, uint32(c.calls), sn, 0, listenerContent(key, conv, sn))
+	seg := c.seg(conv, 81, sn, listenerContent(key, conv, sn))
 	pushes := []uint32{sn}
 	if extraForeign {
 		// a second segment of ANOTHER conversation in the same datagram
-		seg = append(seg, listenerSeg(conv+77, 81, 0, 32, 0, sn+1, 0, []byte("foreign-conversation-bytes"))...)
+		seg = append(seg, c.seg(conv+77, 81, listenerU32(c.rng), []byte("foreign-conversation-bytes"))...)
 	}
 	if !p.fec {
 		return []listenerDg{c.good(p.idx, "raw", seg, true, conv, sn, pushes)}
@@ -1139,6 +1225,9 @@ func (c *listenerCase) push(p *listenerPeer, conv, sn uint32, extraForeign bool)
 	enc := p.enc[conv]
 	if enc == nil {
 		enc = newFECEncoder(p.ds, p.ps, 0)
+		// the encoder of a long-lived sender: its seqid starts anywhere (group aligned)
+		ss := uint32(p.ds + p.ps)
+		enc.next = (listenerU32(c.rng) % enc.paws) / ss * ss
 		p.enc[conv] = enc
 	}
 	buf := make([]byte, 8+len(seg))
@@ -1201,6 +1290,9 @@ func listenerRandomCase(t *testing.T, id int, lg *vlog, rep *vreport, rng *vrng,
 			if sn == p.nextSn[p.conv] {
 				p.nextSn[p.conv]++
 			}
+			if rng.chance(6) { // far outside the receive window: the core drops it
+				sn = listenerSnNonzero(rng)
+			}
 			ds := c.push(p, p.conv, sn, rng.chance(4))
 			if rng.chance(25) && len(ds) > 1 { // lose the data packet, keep the parity
 				ds = ds[1:]
@@ -1211,7 +1303,7 @@ func listenerRandomCase(t *testing.T, id int, lg *vlog, rep *vreport, rng *vrng,
 			if len(p.parity) > 0 {
 				c.pkt(p.parity[rng.intn(len(p.parity))])
 			} else {
-				c.pkt(c.good(p.idx, "parity", listenerFEC(uint32(rng.intn(50)), 0xf2, rng.bytes(30+rng.intn(20)), false), false, 0, 0, nil))
+				c.pkt(c.good(p.idx, "parity", listenerFEC(listenerU32(rng), 0xf2, rng.bytes(6+rng.intn(60)), false), false, 0, 0, nil))
 			}
 		case r < 54: // OOB, own or another conversation
 			conv := p.conv
@@ -1220,10 +1312,18 @@ func listenerRandomCase(t *testing.T, id int, lg *vlog, rep *vreport, rng *vrng,
 			}
 			pl := rng.bytes([]int{0, 1, 7, 40}[rng.intn(4)])
 			c.oobSent[c.key(p.idx)+"|"+string(pl)] = true
-			c.pkt(c.good(p.idx, "oob", listenerOOB(conv, pl), true, conv, 0, nil))
+			c.pkt(c.good(p.idx, "oob", listenerOOBx(listenerU32(rng), uint16(listenerU32(rng)), conv, pl), true, conv, 0, nil))
 		case r < 61: // reconnect: same address, new conversation
 			p.old = append(p.old, p.conv)
 			p.conv = 2000 + uint32(rng.intn(1000))
+			if rng.chance(8) {
+				p.conv = listenerU32(rng)
+			}
+			if rng.chance(35) { // a later packet of the new conversation overtakes its first one
+				ds := c.push(p, p.conv, listenerSnNonzero(rng), false)
+				c.remember(p, ds)
+				c.sendAll(ds)
+			}
 			if rng.chance(70) {
 				p.nextSn[p.conv] = 1
 				ds := c.push(p, p.conv, 0, false)
@@ -1250,10 +1350,10 @@ func listenerRandomCase(t *testing.T, id int, lg *vlog, rep *vreport, rng *vrng,
 				b[4], b[5] = 81, 0
 				c.pkt(c.good(p.idx, "shortraw", b, false, 0, 0, nil))
 			case 2: // FEC data type, too short to hold a segment header
-				c.pkt(c.good(p.idx, "fecshort", listenerFEC(uint32(rng.intn(100)), 0xf1, rng.bytes(4+rng.intn(20)), true), false, 0, 0, nil))
+				c.pkt(c.good(p.idx, "fecshort", listenerFEC(listenerU32(rng), 0xf1, rng.bytes(4+rng.intn(20)), true), false, 0, 0, nil))
 			default:
 				if c.block != nil {
-					c.pkt(c.badGate(p.idx, listenerSeg(p.conv, 81, 0, 32, 0, uint32(rng.intn(4)), 0, []byte("forged"))))
+					c.pkt(c.badGate(p.idx, c.seg(p.conv, 81, uint32(rng.intn(4)), []byte("forged"))))
 				}
 			}
 		case r < 83: // another address using this peer's conversation id
@@ -1262,16 +1362,30 @@ func listenerRandomCase(t *testing.T, id int, lg *vlog, rep *vreport, rng *vrng,
 				from = rng.intn(npeers)
 			}
 			sn := uint32(rng.intn(4))
-			seg := listenerSeg(p.conv, 81, 0, 32, 0, sn, 0, listenerContent(c.key(from), p.conv, sn))
-			if c.block != nil && rng.chance(30) {
-				c.pkt(c.badGate(from, seg))
-			} else {
-				c.pkt(c.good(from, "raw", seg, true, p.conv, sn, []uint32{sn}))
+			if rng.chance(40) {
+				sn = listenerSnNonzero(rng)
 			}
-		case r < 85: // a bare ACK / window probe of the peer's conversation
+			if c.block != nil && rng.chance(30) {
+				c.pkt(c.badGate(from, c.seg(p.conv, 81, sn, listenerContent(c.key(from), p.conv, sn))))
+			} else {
+				c.pkt(c.pushFrom(from, p.conv, sn))
+			}
+		case r < 85: // a bare ACK / window probe, of the peer's or of another conversation
 			cmd := []byte{82, 83, 84}[rng.intn(3)]
 			sn := uint32(rng.intn(3))
-			c.pkt(c.good(p.idx, "raw-ctl", listenerSeg(p.conv, cmd, 0, 32, 0, sn, 0, nil), true, p.conv, sn, nil))
+			if rng.chance(50) {
+				sn = listenerU32(rng)
+			}
+			conv := p.conv
+			if rng.chance(30) {
+				conv = p.conv + 1 + uint32(rng.intn(3))
+			}
+			d := c.good(p.idx, "raw-ctl", c.seg(conv, cmd, sn, nil), true, conv, sn, nil)
+			if rng.chance(40) {
+				d = c.fecHand(p.idx, conv, sn, c.seg(conv, cmd, sn, nil))
+				d.pushes = nil
+			}
+			c.pkt(d)
 		case r < 94:
 			c.accept()
 		case r < 99: // server-side close of a live session (boundary B9: the peer is then "new")
@@ -1319,13 +1433,13 @@ func listenerBacklogCase(t *testing.T, id int, lg *vlog, rep *vreport, rng *vrng
 	c := newListenerCase(t, id, "backlog", lg, rep, rng, "nil", 0, 0, rng.chance(50), n+6)
 	defer c.finish()
 	first := func(i int, conv uint32) listenerDg {
-		return c.good(i, "raw", listenerSeg(conv, 81, 0, 32, 0, 0, 0, listenerContent(c.key(i), conv, 0)), true, conv, 0, []uint32{0})
+		return c.pushFrom(i, conv, 0)
 	}
 	for i := 0; i < n; i++ {
 		c.pkt(first(i, 7))
 		if rng.chance(20) { // traffic of an already queued session while the queue fills
 			j := rng.intn(i + 1)
-			c.pkt(c.good(j, "raw", listenerSeg(7, 81, 0, 32, 0, 1, 0, listenerContent(c.key(j), 7, 1)), true, 7, 1, []uint32{1}))
+			c.pkt(c.pushFrom(j, 7, 1))
 		}
 	}
 	// full: a live address starting a new conversation loses its session and gets none
@@ -1354,11 +1468,14 @@ func listenerOrdersCases(t *testing.T, id *int, lg *vlog, rep *vreport, rng *vrn
 		c := newListenerCase(t, *id, "orders", lg, rep, rng, "nil", fec[0], fec[1], false, 2)
 		const A, B = 0, 1
 		mk := func(conv, sn uint32) listenerDg {
-			return c.good(A, "raw", listenerSeg(conv, 81, 0, 32, 0, sn, 0, listenerContent(c.key(A), conv, sn)), true, conv, sn, []uint32{sn})
+			if sn != 0 { // "a later packet": any sequence number but 0
+				sn = listenerSnNonzero(rng)
+			}
+			return c.pushFrom(A, conv, sn)
 		}
 		// the bystander: accepted, holding one delivered and one out-of-order segment
-		c.pkt(c.good(B, "raw", listenerSeg(11, 81, 0, 32, 0, 0, 0, listenerContent(c.key(B), 11, 0)), true, 11, 0, []uint32{0}))
-		c.pkt(c.good(B, "raw", listenerSeg(11, 81, 0, 32, 0, 2, 0, listenerContent(c.key(B), 11, 2)), true, 11, 2, []uint32{2}))
+		c.pkt(c.good(B, "raw", c.seg(11, 81, 0, listenerContent(c.key(B), 11, 0)), true, 11, 0, []uint32{0}))
+		c.pkt(c.good(B, "raw", c.seg(11, 81, 2, listenerContent(c.key(B), 11, 2)), true, 11, 2, []uint32{2}))
 		c.accept()
 		for _, k := range idx {
 			switch letters[k] {
@@ -1372,14 +1489,19 @@ func listenerOrdersCases(t *testing.T, id *int, lg *vlog, rep *vreport, rng *vrn
 				c.pkt(mk(12, 1))
 			case "oob1":
 				c.oobSent[c.key(A)+"|x"] = true
-				c.pkt(c.good(A, "oob", listenerOOB(11, []byte("x")), true, 11, 0, nil))
+				c.pkt(c.good(A, "oob", listenerOOBx(listenerU32(rng), uint16(listenerU32(rng)), 11, []byte("x")), true, 11, 0, nil))
 			case "oob2":
 				c.oobSent[c.key(A)+"|y"] = true
-				c.pkt(c.good(A, "oob", listenerOOB(12, []byte("y")), true, 12, 0, nil))
+				c.pkt(c.good(A, "oob", listenerOOBx(listenerU32(rng), uint16(listenerU32(rng)), 12, []byte("y")), true, 12, 0, nil))
 			case "par":
-				c.pkt(c.good(A, "parity", listenerFEC(5, 0xf2, bytes.Repeat([]byte{7}, 40), false), false, 0, 0, nil))
+				c.pkt(c.good(A, "parity", listenerFEC(listenerU32(rng), 0xf2, rng.bytes(6+rng.intn(60)), false), false, 0, 0, nil))
 			case "ack2.0":
-				c.pkt(c.good(A, "raw-ctl", listenerSeg(12, 82, 0, 32, 0, 0, 0, nil), true, 12, 0, nil))
+				d := c.good(A, "raw-ctl", c.seg(12, 82, 0, nil), true, 12, 0, nil)
+				if rng.chance(50) {
+					d = c.fecHand(A, 12, 0, c.seg(12, 82, 0, nil))
+					d.pushes = nil
+				}
+				c.pkt(d)
 			case "close":
 				if s := c.snap().tab[c.key(A)]; s != nil {
 					c.closeSess(c.info[s])
@@ -1415,83 +1537,103 @@ func listenerOrdersCases(t *testing.T, id *int, lg *vlog, rep *vreport, rng *vrn
 // real client sessions: their datagrams are captured, then delivered interleaved
 func listenerRealClientsCase(t *testing.T, id int, lg *vlog, rep *vreport, rng *vrng) {
 	blockName := []string{"nil", "aes", "none"}[rng.intn(3)]
-	f := [][2]int{{0, 0}, {2, 1}}[rng.intn(2)]
+	f := [][2]int{{0, 0}, {2, 1}, {2, 1}}[rng.intn(3)]
 	nc := 3 + rng.intn(4)
 	c := newListenerCase(t, id, "real-clients", lg, rep, rng, blockName, f[0], f[1], true, nc)
 	c.skipContent = true
 	type cl struct {
-		conn   *listenerConn
-		s      *UDPSession
-		wrote  []byte
 		mu     sync.Mutex
 		dgrams [][]byte
+		wrote  []byte
 	}
-	cls := make([]*cl, nc)
-	for i := range cls {
-		k := &cl{conn: newListenerConn(c.key(i))}
-		k.conn.sink = func(b []byte, to net.Addr) {
-			k.mu.Lock()
-			k.dgrams = append(k.dgrams, b)
-			k.mu.Unlock()
+	// The clients' clocks: a client process that has been up for an arbitrary time.  The
+	// segment timestamps are currentMs() = time since the package variable refTime.
+	oldRef := refTime
+	shift := time.Duration(listenerU32(rng)) * time.Millisecond
+	refTime = time.Now().Add(-shift)
+	rep.Distribution["real-client-clock:"+map[bool]string{true: ">=65.536s", false: "<65.536s"}[shift >= 65536*time.Millisecond]]++
+	// one or two generations per address: a client, and (restart on the same local address)
+	// a second client with another conversation id
+	gens := make([][]*cl, nc)
+	for i := range gens {
+		ng := 1 + rng.intn(2)
+		for g := 0; g < ng; g++ {
+			k := &cl{}
+			conn := newListenerConn(c.key(i))
+			conn.sink = func(b []byte, to net.Addr) {
+				k.mu.Lock()
+				k.dgrams = append(k.dgrams, b)
+				k.mu.Unlock()
+			}
+			s, err := NewConn4(uint32(500+i%2+10*g), listenerAddr{"server"}, c.block, f[0], f[1], false, conn)
+			if err != nil {
+				refTime = oldRef
+				t.Fatal(err)
+			}
+			s.SetNoDelay(1, 10, 2, 1)
+			s.SetStreamMode(true)
+			k.wrote = rng.bytes(200 + rng.intn(3000))
+			s.Write(k.wrote)
+			time.Sleep(60 * time.Millisecond)
+			s.Close()
+			conn.Close()
+			gens[i] = append(gens[i], k)
 		}
-		s, err := NewConn4(uint32(500+i%2), listenerAddr{"server"}, c.block, f[0], f[1], false, k.conn)
-		if err != nil {
-			t.Fatal(err)
-		}
-		s.SetNoDelay(1, 10, 2, 1)
-		s.SetStreamMode(true)
-		k.s = s
-		k.wrote = rng.bytes(200 + rng.intn(3000))
-		s.Write(k.wrote)
-		cls[i] = k
-	}
-	time.Sleep(120 * time.Millisecond)
-	for _, k := range cls {
-		k.s.Close()
-		k.conn.Close()
 	}
 	time.Sleep(20 * time.Millisecond)
-	// deliver: round-robin over the clients in random order, with duplicates
-	pos := make([]int, nc)
-	for {
-		var av []int
-		for i, k := range cls {
-			if pos[i] < len(k.dgrams) {
-				av = append(av, i)
+	refTime = oldRef
+	// deliver: generation by generation; within one, the clients interleaved at random, each
+	// client's datagrams in the order it sent them, with duplicates
+	for g := 0; g < 2 && !c.bad; g++ {
+		pos := make([]int, nc)
+		for {
+			var av []int
+			for i := range gens {
+				if g < len(gens[i]) && pos[i] < len(gens[i][g].dgrams) {
+					av = append(av, i)
+				}
 			}
+			if len(av) == 0 || c.bad {
+				break
+			}
+			i := av[rng.intn(len(av))]
+			w := gens[i][g].dgrams[pos[i]]
+			if !rng.chance(10) {
+				pos[i]++
+			}
+			pl := listenerOpen(c.block, w)
+			if pl == nil {
+				c.violate("listener-harness", "a captured client datagram does not pass the harness's own gate")
+				break
+			}
+			d := listenerDg{from: i, wire: w, ok: true, payload: pl, class: "real-client"}
+			// classification for the monitors, from the wire layout
+			typ := binary.LittleEndian.Uint16(pl[4:])
+			switch {
+			case typ == 0xf1 && len(pl) >= 32:
+				d.readable, d.conv, d.sn = true, binary.LittleEndian.Uint32(pl[8:]), binary.LittleEndian.Uint32(pl[20:])
+			case typ == 0xf1 || typ == 0xf2:
+			case len(pl) >= 24:
+				d.readable, d.conv, d.sn = true, binary.LittleEndian.Uint32(pl), binary.LittleEndian.Uint32(pl[12:])
+			}
+			c.pkt(d)
 		}
-		if len(av) == 0 || c.bad {
-			break
-		}
-		i := av[rng.intn(len(av))]
-		w := cls[i].dgrams[pos[i]]
-		if !rng.chance(10) {
-			pos[i]++
-		}
-		pl := listenerOpen(c.block, w)
-		if pl == nil {
-			c.violate("listener-harness", "a captured client datagram does not pass the harness's own gate")
-			break
-		}
-		d := listenerDg{from: i, wire: w, ok: true, payload: pl, class: "real-client"}
-		// classification for the monitors, from the wire layout
-		typ := binary.LittleEndian.Uint16(pl[4:])
-		switch {
-		case typ == 0xf1 && len(pl) >= 32:
-			d.readable, d.conv, d.sn = true, binary.LittleEndian.Uint32(pl[8:]), binary.LittleEndian.Uint32(pl[20:])
-		case typ == 0xf1 || typ == 0xf2:
-		case len(pl) >= 24:
-			d.readable, d.conv, d.sn = true, binary.LittleEndian.Uint32(pl), binary.LittleEndian.Uint32(pl[12:])
-		}
-		c.pkt(d)
 	}
-	// what each server session delivers is a prefix of what its client wrote, and all of it
+	// what each server session delivers is exactly what the LAST client of its address wrote
 	q := c.snap()
-	for i, k := range cls {
+	for i := range gens {
+		k := gens[i][len(gens[i])-1]
 		s := q.tab[c.key(i)]
-		rep.Monitors["real-client-stream(server session reads exactly what its client wrote)"]++
+		rep.Monitors["real-client-stream(server session reads exactly what its (restarted) client wrote)"]++
+		if c.bad {
+			break
+		}
 		if s == nil {
 			c.violate("listener-missed-accept", fmt.Sprintf("client %d sent %d datagrams but has no session", i, len(k.dgrams)))
+			continue
+		}
+		if want := uint32(500 + i%2 + 10*(len(gens[i])-1)); s.kcp.conv != want {
+			c.violate("listener-missed-accept", fmt.Sprintf("client %d restarted with conversation %d (all its datagrams delivered) but the server still holds the session of conversation %d", i, want, s.kcp.conv))
 			continue
 		}
 		var got []byte
@@ -1619,7 +1761,7 @@ func listenerDialledCases(t *testing.T, id *int, lg *vlog, rep *vreport, rng *vr
 					from = remote
 				}
 				in0 := atomic.LoadUint64(&DefaultSnmp.InPkts)
-				seg := listenerSeg(conv, 81, 0, 32, 0, uint32(k), 0, []byte{byte(k)})
+				seg := listenerSeg(conv, 81, 0, uint16(listenerU32(rng)), listenerU32(rng), uint32(k), listenerU32(rng), []byte{byte(k)})
 				if !conn.deliver(seg, from) {
 					rep.violate("dialled-stalled", "the dialled session's read loop did not come back within 20 s", map[string]any{"remote": listenerEncAddr(remote), "probes": trace})
 					break
